@@ -4,7 +4,7 @@
             stmt = (0 target asname?) | (1 level modname ((orig asname?) ...)) | (2 level modname)
                  | (3 name base? body) | (4 name) | (5 target expr) ;  x? = () | (x)
             order = (path ...) ; queries = ((m qual dotted) ...)  -- ctx given by identity m ++ qual
-   answer   (oof anomaly objs results)
+   answer   (oof anomaly objs results leak all_closed)
             objs    = ((path id kind amap baseobj? state) ...)
             results = ((ctxpath expand resolved? spec? guard) ...), resolved = (path id kind), spec = (tag m q),
                       guard = trail_ok (the name is inside the guard of C04_expand_sound)
@@ -77,7 +77,7 @@ Definition run (s : sexp) : sexp :=
                   spec; of_bool (trail_ok st ctx true dotted)]
              | None => L [L []; L []; L []; spec; of_bool false]
              end) (to_list (nth_s 3 s)) in
-    L [of_bool (oof st); of_bool (anomaly st); L (map obj_sexp (objs st)); L results]
+    L [of_bool (oof st); of_bool (anomaly st); L (map obj_sexp (objs st)); L results; of_bool (leak st); of_bool (all_closed st)]
   | 1%Z =>
     let mpath := to_path (nth_s 1 s) in
     let is_pkg := to_bool (nth_s 2 s) in
